@@ -574,3 +574,105 @@ def _name_from_writes(fn: Func, name_txt: str) -> bool:
         if isinstance(n, ast.Assign) and isinstance(n.targets[0], ast.Name) and n.targets[0].id == name_txt:
             return "get_writes_of_stmts" in ast.unparse(n.value)
     return False
+
+
+def rule_envname(ctx, prop: str) -> RuleResult:
+    """Generated C refers to an Exo variable only through the compiler's name environment
+    (`env[sym]` / `self.env[sym]`, filled by `new_varname`, which renames apart variables
+    that share a source-level name).  Inside the code-emitting methods of `Compiler`, no
+    f-string that becomes C text may interpolate a node's `.name` (a Sym) directly."""
+    ix = ctx.ix
+    res = RuleResult("ENVNAME")
+    c = ix.module(COMP).cls("Compiler")
+    emitters = ("comp_cir", "comp_e", "comp_s", "access_str", "shape_strs", "window_struct_fields", "comp_fnarg")
+    n = 0
+    for mname in emitters:
+        f = c.methods.get(mname)
+        if f is None:
+            continue
+        res.analysed.append(f"{COMP}:{f.qualname}")
+        for js in f.body_nodes():
+            if not isinstance(js, ast.JoinedStr):
+                continue
+            # error messages and comments are not C code
+            p = parent(js)
+            in_raise = False
+            while p is not None and p is not f.node:
+                if isinstance(p, ast.Raise) or (isinstance(p, ast.Call) and last_name(p) in ("err", "MemGenError", "TypeError", "ConfigError")):
+                    in_raise = True
+                p = parent(p)
+            if in_raise:
+                continue
+            for fv in js.values:
+                if not isinstance(fv, ast.FormattedValue):
+                    continue
+                for a in ast.walk(fv.value):
+                    if isinstance(a, ast.Attribute) and a.attr == "name" and isinstance(a.value, ast.Name):
+                        # allowed: env[x.name], self.env[x.name], self.mems[...], x.name() calls
+                        q = parent(a)
+                        ok = False
+                        while q is not None and q is not fv:
+                            if isinstance(q, ast.Subscript) and (dotted(q.value) or "").endswith("env"):
+                                ok = True
+                            if isinstance(q, ast.Call) and q.func is a:
+                                ok = True  # method call .name()
+                            q = parent(q)
+                        n += 1
+                        res.instances += 1
+                        res.nontrivial += 1
+                        res.ob(ok)
+                        res.sample(f"{f.qualname}: `{ast.unparse(fv.value)[:50]}` goes through the name environment: {ok}")
+                        if not ok:
+                            res.add(
+                                Finding("ENVNAME", COMP, js.lineno, f.qualname, ast.unparse(a),
+                                        f"{f.qualname} writes `{ast.unparse(a)}` (the source-level name) into C text instead of the variable's C name `env[{ast.unparse(a)}]`: "
+                                        f"when two variables share a name (w and w_1 after inlining a callee twice) the second one's code refers to the first")
+                            )
+    if n < 1:
+        raise AnalysisError("ENVNAME: no interpolation of a node name found in the emitting methods of Compiler")
+    res.floor = 1
+    return res
+
+
+def rule_basekey(ctx, prop: str) -> RuleResult:
+    """`Compiler.non_const` holds the UNDERLYING buffers that are written
+    (`get_writes_of_stmts` resolves windows to their roots).  A membership test against
+    it must therefore be made on an underlying buffer: a procedure argument's own name, or
+    a name resolved through the chain of window types (`while isinstance(envtyp[v],
+    T.Window): v = envtyp[v].src_buf`) — never on a window's immediate source."""
+    ix = ctx.ix
+    res = RuleResult("BASEKEY")
+    c = ix.module(COMP).cls("Compiler")
+    n = 0
+    for f in c.methods.values():
+        for cmp_ in f.body_nodes():
+            if not (isinstance(cmp_, ast.Compare) and len(cmp_.ops) == 1 and isinstance(cmp_.ops[0], (ast.In, ast.NotIn)) and dotted(cmp_.comparators[0]) == "self.non_const"):
+                continue
+            n += 1
+            res.instances += 1
+            res.nontrivial += 1
+            res.analysed.append(f"{COMP}:{f.qualname}")
+            key = cmp_.left
+            txt = ast.unparse(key)
+            ok = False
+            why = ""
+            if isinstance(key, ast.Attribute) and key.attr == "name":
+                ok, why = True, "a declaration's own name"
+            elif isinstance(key, ast.Name):
+                # resolved by a closure loop over window types
+                for w in f.body_nodes():
+                    if isinstance(w, ast.While) and "T.Window" in ast.unparse(w.test) and key.id in ast.unparse(w.test):
+                        if any(isinstance(k, ast.Assign) and dotted(k.targets[0]) == key.id and "src_buf" in ast.unparse(k.value) for b in w.body for k in ast.walk(b)):
+                            ok, why = True, "resolved through the chain of window types"
+            res.ob(ok)
+            res.sample(f"{f.qualname}: `{ast.unparse(cmp_)}` tests an underlying buffer ({why or 'NOT established'}): {ok}")
+            if not ok:
+                res.add(
+                    Finding("BASEKEY", COMP, cmp_.lineno, f.qualname, txt,
+                            f"`{ast.unparse(cmp_)}`: non_const contains underlying buffers only, `{txt}` may be a window (window of a window): the struct is declared const and then "
+                            f"written through — the generated C does not compile (inline of a callee that windows its window argument)")
+                )
+    if n < 3:
+        raise AnalysisError(f"BASEKEY: expected >= 3 membership tests against self.non_const, found {n}")
+    res.floor = 3
+    return res
